@@ -1244,7 +1244,7 @@ func (repo *Repository) load(ctx context.Context, depth int) error {
 }
 
 func (repo *Repository) loadBranchHashHeights(ctx context.Context, branch *Branch) {
-	height := branch.parentHeight + 1
+	height := branch.PrunedLowestHeight() // first header in memory can be above the branch start
 	for _, headerData := range branch.headers {
 		repo.heights[headerData.Hash] = height
 		height++
